@@ -237,51 +237,90 @@ def kwarg(f: T.Any, key: str) -> T.Optional[T.Any]:
 UNKNOWN = object()
 
 
-def resolve_files(node: T.Any, stmts: T.List[T.Any], used: T.Set[int], depth: int = 0) -> T.List[T.Any]:
-    """the file names a sources / extra_files expression denotes, for the literal forms the generator writes
-    (strings, lists, files(...), variables assigned once, `+`); anything else yields UNKNOWN.
-    `used` collects the indices of the assignment statements consulted."""
+def resolve_files(node: T.Any, stmts: T.List[T.Any], used: T.Set[int], depth: int = 0,
+                  dirs: T.Optional[T.List[str]] = None, here: str = '', base: str = '') -> T.List[T.Any]:
+    """the files (paths relative to the source root, normalised) a sources / extra_files expression denotes, for the
+    literal forms the generator writes (strings, lists, files(...), variables assigned once, `+`); anything else
+    yields UNKNOWN. meson semantics: a plain string is relative to the directory of the target that consumes it
+    (`base`), a string inside files(...) to the directory of the meson.build holding that call (`here`).
+    `used` collects the indices of the assignment statements consulted; `dirs[i]` is the directory of statement i."""
     M = mp()
     if depth > 20:
         return [UNKNOWN]
+    kw = dict(dirs=dirs, here=here, base=base)
     if isinstance(node, M.ParenthesizedNode):
-        return resolve_files(node.inner, stmts, used, depth + 1)
+        return resolve_files(node.inner, stmts, used, depth + 1, **kw)
     if isinstance(node, M.StringNode):
-        return [node.value]
+        return [os.path.normpath(os.path.join(base, node.value))]
     if isinstance(node, M.ArrayNode):
         out: T.List[T.Any] = []
         for a in node.args.arguments:
-            out += resolve_files(a, stmts, used, depth + 1)
+            out += resolve_files(a, stmts, used, depth + 1, **kw)
         return out
     if isinstance(node, M.FunctionNode) and node.func_name.value == 'files':
         out = []
         for a in node.args.arguments:
-            out += resolve_files(a, stmts, used, depth + 1)
+            out += resolve_files(a, stmts, used, depth + 1, dirs=dirs, here=here, base=here)
         return out
     if isinstance(node, M.ArithmeticNode) and node.operation == '+':
-        return resolve_files(node.left, stmts, used, depth + 1) + resolve_files(node.right, stmts, used, depth + 1)
+        return resolve_files(node.left, stmts, used, depth + 1, **kw) + resolve_files(node.right, stmts, used, depth + 1, **kw)
     if isinstance(node, M.IdNode):
         hits = [(i, st) for i, st in enumerate(stmts) if isinstance(st, M.AssignmentNode) and st.var_name.value == node.value]
         if len(hits) != 1:
             return [UNKNOWN]
         used.add(hits[0][0])
-        return resolve_files(hits[0][1].value, stmts, used, depth + 1)
+        there = dirs[hits[0][0]] if dirs is not None else here
+        return resolve_files(hits[0][1].value, stmts, used, depth + 1, dirs=dirs, here=there, base=base)
     return [UNKNOWN]
 
 
-def target_files(stmts: T.List[T.Any], f: T.Any, what: str, used: T.Set[int]) -> T.List[T.Any]:
+def target_files(stmts: T.List[T.Any], f: T.Any, what: str, used: T.Set[int],
+                 dirs: T.Optional[T.List[str]] = None, tdir: str = '') -> T.List[T.Any]:
     out: T.List[T.Any] = []
+    kw = dict(dirs=dirs, here=tdir, base=tdir)
     if what == 'src':
         for a in f.args.arguments[1:]:
-            out += resolve_files(a, stmts, used)
+            out += resolve_files(a, stmts, used, **kw)
         kv = kwarg(f, 'sources')
         if kv is not None:
-            out += resolve_files(kv, stmts, used)
+            out += resolve_files(kv, stmts, used, **kw)
     else:
         kv = kwarg(f, 'extra_files')
         if kv is not None:
-            out += resolve_files(kv, stmts, used)
+            out += resolve_files(kv, stmts, used, **kw)
     return out
+
+
+class View:
+    """every build file of a project tree as the real parser reads it: `stmts` = the simple statements of all files in
+    evaluation order (a `subdir('x')` call is followed by the statements of x/meson.build), `where[i]` = (file, index of
+    the statement within its own file), `dirs[i]` = directory of that file"""
+
+    def __init__(self, files: T.Dict[str, str]):
+        self.files = files
+        self.stmts: T.List[T.Any] = []
+        self.where: T.List[T.Tuple[str, int]] = []
+        self.dirs: T.List[str] = []
+        self.per_file: T.Dict[str, T.List[T.Any]] = {}
+        self._load('meson.build', 0)
+        for f in sorted(files):           # build files no subdir() leads to: still part of the tree
+            if f not in self.per_file:
+                self._load(f, 0)
+
+    def _load(self, rel: str, depth: int) -> None:
+        M = mp()
+        if rel in self.per_file or rel not in self.files or depth > 8:
+            return
+        fl = flat_statements(parse(self.files[rel]))
+        self.per_file[rel] = fl
+        d = os.path.dirname(rel)
+        for i, st in enumerate(fl):
+            self.stmts.append(st)
+            self.where.append((rel, i))
+            self.dirs.append(d)
+            if isinstance(st, M.FunctionNode) and st.func_name.value == 'subdir' and st.args.arguments \
+                    and isinstance(st.args.arguments[0], M.StringNode):
+                self._load(os.path.normpath(os.path.join(d, st.args.arguments[0].value, 'meson.build')), depth + 1)
 
 
 def lit(node: T.Any) -> T.Any:
@@ -586,6 +625,7 @@ class Capture:
 
     def __init__(self) -> None:
         self.applies: T.List[T.Dict[str, T.Any]] = []
+        self.removals: T.List[T.Dict[str, T.Any]] = []
 
 
 def nested_works(works: T.List[T.Dict[str, T.Any]]) -> bool:
@@ -676,9 +716,52 @@ def install_hook(cap: Capture) -> T.Callable[[], None]:
             # indices (into the queue: modified, removed, added) of the PRINTED items in the order they were handled
             rec['order'] = [next((i for i, q_ in enumerate(queued) if q_ is n), -1) for n in OrderPrinter.log]
     RW.Rewriter.apply_changes = hooked
+    orig_rm = RW.Rewriter.rm_src_or_extra
+
+    def hooked_rm(self: T.Any, op: str, target: T.Any, to_be_removed: T.List[str], to_sort_nodes: T.List[T.Any]) -> None:
+        """record the candidate lists find_node will walk (with the directory their strings are relative to) and, afterwards,
+        which strings were really removed"""
+        from pathlib import Path
+        M = mp()
+        rec: T.Dict[str, T.Any] = {'op': op, 'srcs': list(to_be_removed), 'cands': [], 'removed': None, 'root': None}
+        snap: T.List[T.Tuple[T.Any, T.List[T.Any]]] = []
+        try:
+            from mesonbuild.interpreterbase import UnknownValue
+            if op == 'src_rm':
+                nodes = self.interpreter.dataflow_dag.reachable(set(target.source_nodes), True).union({target.node})
+            else:
+                nodes = self.interpreter.dataflow_dag.reachable({target.extra_files}, True)
+            rec['root'] = str(Path(os.getcwd()) / self.interpreter.source_root)
+            for n in nodes:
+                if isinstance(n, UnknownValue):
+                    continue
+                relto = self.get_relto(target.node, n)
+                if relto is None:
+                    continue
+                strs = [j for j in self.arg_list_from_node(n) if isinstance(j, M.StringNode)]
+                if not strs:
+                    continue
+                snap.append((n, strs))
+                rec['cands'].append({'relto': str(relto), 'strings': [j.value for j in strs],
+                                     'removable': [bool(self.affects_no_other_targets(j)) for j in strs]})
+        except Exception as e:     # e.g. the AssertionError of a target without extra_files: nothing to compare
+            rec['cands'] = None
+            rec['err'] = type(e).__name__
+        cap.removals.append(rec)
+        orig_rm(self, op, target, to_be_removed, to_sort_nodes)
+        if rec['cands'] is not None:
+            removed = []
+            for ci, (n, strs) in enumerate(snap):
+                now = [id(j) for j in self.arg_list_from_node(n)]
+                for ji, j in enumerate(strs):
+                    if id(j) not in now:
+                        removed.append((ci, ji))
+            rec['removed'] = removed
+    RW.Rewriter.rm_src_or_extra = hooked_rm
 
     def restore() -> None:
         RW.Rewriter.apply_changes = orig
+        RW.Rewriter.rm_src_or_extra = orig_rm
     return restore
 
 
